@@ -224,6 +224,61 @@ def c_case_strategy():
     return build()
 
 
+TORPEX_COILS = [
+    {"R": 0.7667, "Z": 0.5262, "I": 7200.0},
+    {"R": 0.7667, "Z": -0.5262, "I": 7200.0},
+    {"R": 1.381, "Z": 0.5262, "I": -504.0},
+    {"R": 1.381, "Z": -0.5262, "I": -504.0},
+]
+
+
+def t_case_strategy():
+    """Isolated X-point (TORPEX) family: the shipped coil set with all currents scaled by a
+    common factor f (psi scales with f, so the shipped psi ranges are scaled too) and the two
+    pairs perturbed by up to 3%."""
+    from hypothesis import strategies as st
+
+    @st.composite
+    def build(draw):
+        f = draw(st.sampled_from([1.0, 0.9, 1.1, 2.0]))
+        e1 = 1.0 + draw(st.sampled_from([0.0, 0.02, -0.02]))
+        coils = []
+        for k, c in enumerate(TORPEX_COILS):
+            coils.append({"R": c["R"], "Z": c["Z"], "I": c["I"] * f * (e1 if k >= 2 else 1.0)})
+        orth = draw(st.booleans())
+        o = {
+            "orthogonal": orth,
+            "nx_core": draw(st.integers(1, 3)),
+            "nx_sol": draw(st.integers(1, 3)),
+            "psi_core": -1.55e-3 * f,
+            "psi_sol": -1.47e-3 * f,
+            "psi_sol_inner": -1.44e-3 * f,
+            "psi_spacing_separatrix_multiplier": draw(st.sampled_from([0.2, 0.5, 1.0])),
+            "xpoint_poloidal_spacing_length": 0.15,
+            "y_boundary_guards": draw(st.sampled_from([0, 1])),
+            "refine_width": 4.0e-2,
+            "geometry_rtol": 1.0e-8,
+            "finecontour_Nfine": draw(st.sampled_from([20, 40])),
+        }
+        for k in ("ny_inner_lower_divertor", "ny_inner_upper_divertor", "ny_outer_upper_divertor", "ny_outer_lower_divertor"):
+            o[k] = draw(st.integers(3, 6))
+        if not orth:
+            o.update({
+                "nonorthogonal_xpoint_poloidal_spacing_length": 0.3,
+                "nonorthogonal_xpoint_poloidal_spacing_range": 4.0e-2,
+                "nonorthogonal_xpoint_poloidal_spacing_range_inner": 3.0e-1,
+                "nonorthogonal_xpoint_poloidal_spacing_range_outer": 3.0e-1,
+                "nonorthogonal_radial_range_power": 1.0,
+                "nonorthogonal_target_poloidal_spacing_length": 0.3,
+                "nonorthogonal_target_poloidal_spacing_range": 4.0e-2,
+                "nonorthogonal_target_poloidal_spacing_range_inner": 1.0e-1,
+                "nonorthogonal_target_poloidal_spacing_range_outer": 1.0e-1,
+            })
+        return {"family": "T", "entry": "api", "eq": {"equilibOptions": {"Coils": coils, "Bt_axis": 77.0e-3}}, "options": o}
+
+    return build()
+
+
 def label(desc):
     """Stratification label of a descriptor."""
     o = desc["options"]
@@ -238,6 +293,8 @@ def label(desc):
         )
     if desc["family"] == "C":
         return "C/%s/q%d" % ("limiter" if o.get("limiter") else "core", len(o["q_coefficients"]))
+    if desc["family"] == "T":
+        return "T/%s/g%d" % ("orth" if o.get("orthogonal", True) else "nonorth", min(o.get("y_boundary_guards", 0), 1))
     return desc["family"]
 
 
@@ -308,4 +365,5 @@ def base_corpus(tier, seed):
     n_c = 4 if tier == "quick" else 30
     g = collect(g_case_strategy(), n_g, seed)
     c = collect(c_case_strategy(), n_c, seed + 1, keyfn=c_label)
-    return g + c
+    t = collect(t_case_strategy(), 2 if tier == "quick" else 12, seed + 2, keyfn=label)
+    return g + c + t
